@@ -3,6 +3,7 @@ import ExecModel.Cmd
 import ExecModel.Launcher
 import ExecModel.Props.C16
 import ExecModel.Props.C15
+import ExecModel.Props.C17
 /-!
   `modeld` — line protocol driver: one JSON object per line in, one JSON value per line out.
   Every request carries `"op"`.  Anything not understood yields `{"error": "bad-op"}`; nothing is
@@ -142,9 +143,58 @@ def presetOps (op : String) (j : Json) : Except String (Option Json) := do
       | none => pure (some (jBindRes (Preset.bind sig args kw)))
   | _ => pure none
 
+/-- Calls understood by the driver's instance of `Wire.Run`. -/
+inductive CallK
+  | ok (v : Json)             -- returns v
+  | raise (e : Json)          -- raises e
+  | preset (key : String)     -- returns the preset value of `key`; fails when not preset
+  | counter                   -- returns the number of calls executed before in this interpreter
+  | rank (v : Json)           -- returns [rank, v]
+
+def runK : Wire.Run (List (String × Json)) CallK Json Json
+  | _, _, _, .ok v => .ok v
+  | _, _, _, .raise e => .error e
+  | _, _, m, .preset k => match m.bind (fun d => Dict.get? d k) with
+      | some v => .ok v
+      | none => .error (Json.str "TypeError")
+  | _, n, _, .counter => .ok (Json.num n)
+  | r, _, _, .rank v => .ok (Json.arr #[Json.num r, v])
+
+def parseReq (j : Json) : Except String (Wire.Req (List (String × Json)) CallK) := do
+  match ← getStr j "t" with
+  | "init" => pure (.init (← getPairs j "mem"))
+  | "shutdown" => pure .shutdown
+  | "other" => pure .other
+  | "ok" => pure (.call (.ok (← j.getObjVal? "v")))
+  | "raise" => pure (.call (.raise (← j.getObjVal? "v")))
+  | "preset" => pure (.call (.preset (← getStr j "key")))
+  | "counter" => pure (.call .counter)
+  | "rank" => pure (.call (.rank (← j.getObjVal? "v")))
+  | t => throw s!"unknown request kind {t}"
+
+def wireOps (op : String) (j : Json) : Except String (Option Json) := do
+  match op with
+  | "wire_serve" =>
+    let reqs ← (← j.getObjValAs? (Array Json) "reqs").toList.mapM parseReq
+    let out := Wire.serve runK {} reqs
+    pure (some (Json.arr (out.map (fun r => match r with
+      | .result v => Json.mkObj [("result", v)]
+      | .error e => Json.mkObj [("error", e)]
+      | .ack => Json.mkObj [("ack", true)])).toArray))
+  | "wire_pserve" =>
+    let reqs ← (← j.getObjValAs? (Array Json) "reqs").toList.mapM parseReq
+    let n ← getNat j "n"
+    let out := Wire.pserve runK n {} reqs
+    pure (some (Json.arr (out.map (fun r => match r with
+      | .single v => Json.mkObj [("result", v)]
+      | .gathered vs => Json.mkObj [("result", Json.arr vs.toArray)]
+      | .error e => Json.mkObj [("error", e)]
+      | .ack => Json.mkObj [("ack", true)])).toArray))
+  | _ => pure none
+
 end H
 
-def handlers : List (String → Json → Except String (Option Json)) := [H.cmdOps, H.presetOps]
+def handlers : List (String → Json → Except String (Option Json)) := [H.cmdOps, H.presetOps, H.wireOps]
 
 def handle (line : String) : Json :=
   match Json.parse line with
